@@ -1,6 +1,7 @@
 package rules
 
 import (
+	"go/token"
 	"go/types"
 	"strings"
 
@@ -21,7 +22,10 @@ func init() {
 		Old: "\t\tinst.ErrCh <- err // Send resulting error to errCh.\n",
 		New: "\t\tinst.ErrCh <- err // Send resulting error to errCh.\n\n\t\tif err == nil {\n\t\t\tc.deleteInstanceIO(duty)\n\t\t}\n"}
 	dec := "(IX) the per-duty consensus instance state is removed only for duties received from the deadliner's expiry channel (a decided instance cannot be restarted by a late Propose)."
-	Extend("C01", dec, instanceExpiryRule, m)
+	m2 := Mutant{ID: "IX-delete-instance-io-when-instance-returns", File: "core/consensus/qbft/qbft.go", Expect: "IX",
+		Old: "\t\treturn errors.New(\"consensus timeout\", z.Str(\"duty\", duty.String()))\n\t}\n\n\treturn nil\n}",
+		New: "\t\treturn errors.New(\"consensus timeout\", z.Str(\"duty\", duty.String()))\n\t}\n\n\tc.deleteInstanceIO(duty)\n\n\treturn nil\n}"}
+	Extend("C01", dec, instanceExpiryRule, m, m2)
 	Extend("C02", dec, instanceExpiryRule)
 	Extend("C03", dec, instanceExpiryRule)
 }
@@ -56,28 +60,38 @@ func instanceExpiryRule(c *rt.Ctx) {
 					c.Bad(an.FuncName(fn)+" clears the instances", call.Pos(), "all consensus instance state is dropped at once")
 					continue
 				}
-				key := an.Resolve(call.Call.Args[1])
-				if p, ok := key.(*ssa.Parameter); ok && fn.Parent() == nil {
-					for i, q := range fn.Params {
+				key := c01ResolveCaptured(call.Call.Args[1])
+				if p, ok := key.(*ssa.Parameter); ok && p.Parent().Parent() == nil {
+					for i, q := range p.Parent().Params {
 						if q == p {
-							deleters[fn] = i
+							deleters[p.Parent()] = i
 						}
 					}
 					c.Good(an.FuncName(fn)+" deletes instances[param]", call.Pos(), "callers checked below")
 					continue
 				}
-				c.Check(an.FuncName(fn)+" deletes instances[duty]", call.Pos(), valueFromRecvOf(call.Call.Args[1], "iface:core.Deadliner.C"),
-					"instance state is removed for a duty that was not received from the deadliner's expiry channel")
+				construct := an.FuncName(fn) + " deletes instances[duty]"
+				switch c01xFromExpiry(call.Call.Args[1], funcs, 0) {
+				case 1:
+					c.Good(construct, call.Pos(), "")
+				case -1:
+					c.Bad(construct, call.Pos(), "instance state is removed for a duty that was not received from the deadliner's expiry channel")
+				default:
+					c.Unsure(construct, call.Pos(), "the duty is received from a channel the checker cannot trace back to deadliner.C()")
+				}
 			}
 		}
 		if n == 0 {
 			c.Bail("no removal from the consensus instances map found")
 		}
-		for round := 0; round < 3; round++ {
+		// every call of a deleter: the duty handed over is received from the expiry channel, or is the caller's own
+		// parameter (then the caller's call sites are checked in the next round)
+		checked := map[ssa.Instruction]bool{}
+		for round := 0; round < 5; round++ {
 			for _, fn := range funcs {
 				for _, in := range an.Instrs(fn, false) {
 					ci, ok := in.(ssa.CallInstruction)
-					if !ok {
+					if !ok || checked[in] {
 						continue
 					}
 					callee := an.Orig(ci.Common().StaticCallee())
@@ -85,21 +99,38 @@ func instanceExpiryRule(c *rt.Ctx) {
 					if !isDel || idx >= len(ci.Common().Args) {
 						continue
 					}
+					checked[in] = true
 					arg := ci.Common().Args[idx]
-					if round == 0 {
-						if p, ok := an.Resolve(arg).(*ssa.Parameter); ok && fn.Parent() == nil {
-							// a forwarding helper: its callers are checked in the next round
-							for i, q := range fn.Params {
-								if q == p {
-									if _, seen := deleters[fn]; !seen {
-										deleters[fn] = i
-									}
-								}
+					construct := an.FuncName(fn) + " → " + an.FuncName(callee)
+					if p, ok := c01ResolveCaptured(arg).(*ssa.Parameter); ok {
+						owner := p.Parent()
+						pi := -1
+						for i, q := range owner.Params {
+							if q == p {
+								pi = i
 							}
-							continue
 						}
-						c.Check(an.FuncName(fn)+" → "+an.FuncName(callee), ci.Pos(), valueFromRecvOf(arg, "iface:core.Deadliner.C"),
-							"the consensus instance state of a duty is dropped although the duty did not expire (not received from deadliner.C()): a late Propose/Participate can start a second instance for a decided duty")
+						sites := c01xCallSites(funcs, owner)
+						switch {
+						case pi >= 0 && owner.Parent() == nil && len(sites) > 0 && (owner.Object() == nil || !owner.Object().Exported()):
+							// a forwarding helper: its callers are checked in the next round
+							if _, seen := deleters[owner]; !seen {
+								deleters[owner] = pi
+							}
+						case owner.Object() != nil && owner.Object().Exported():
+							c.Bad(construct, ci.Pos(), "the consensus instance state is dropped for a duty that is an input of "+an.FuncName(owner)+" (supplied by the component's callers), not a duty received from deadliner.C(): a late Propose/Participate can start a second instance for a decided duty")
+						default:
+							c.Unsure(construct, ci.Pos(), "the duty is a parameter of "+an.FuncName(owner)+" whose callers are not followed")
+						}
+						continue
+					}
+					switch c01xFromExpiry(arg, funcs, 0) {
+					case 1:
+						c.Good(construct, ci.Pos(), "")
+					case -1:
+						c.Bad(construct, ci.Pos(), "the consensus instance state of a duty is dropped although the duty did not expire (not received from deadliner.C()): a late Propose/Participate can start a second instance for a decided duty")
+					default:
+						c.Unsure(construct, ci.Pos(), "the duty is received from a channel the checker cannot trace back to deadliner.C()")
 					}
 				}
 			}
@@ -120,4 +151,85 @@ func instanceExpiryRule(c *rt.Ctx) {
 			}
 		}
 	})
+}
+
+// c01xCallSites: the static call/go/defer sites of fn in funcs.
+func c01xCallSites(funcs []*ssa.Function, fn *ssa.Function) []ssa.CallInstruction {
+	var out []ssa.CallInstruction
+	for _, f := range funcs {
+		for _, in := range an.Instrs(f, false) {
+			if ci, ok := in.(ssa.CallInstruction); ok && an.Orig(ci.Common().StaticCallee()) == fn {
+				out = append(out, ci)
+			}
+		}
+	}
+	return out
+}
+
+// c01xFromExpiry: v is received from the channel returned by core.Deadliner.C() (1), positively is not (-1), or is
+// received from a channel the checker cannot trace (0). The channel is followed through single-assignment locals,
+// captured variables and parameters (to every in-package call site).
+func c01xFromExpiry(v ssa.Value, funcs []*ssa.Function, depth int) int {
+	var ch ssa.Value
+	switch x := c01ResolveCaptured(v).(type) {
+	case *ssa.UnOp:
+		if x.Op == token.ARROW {
+			ch = x.X
+		}
+	case *ssa.Extract:
+		if sel, ok := x.Tuple.(*ssa.Select); ok {
+			k, n := x.Index-2, 0
+			for _, st := range sel.States {
+				if st.Dir == types.RecvOnly {
+					if n == k {
+						ch = st.Chan
+					}
+					n++
+				}
+			}
+		}
+	}
+	if ch == nil {
+		return -1 // not a channel receive at all
+	}
+	return c01xExpiryChan(ch, funcs, depth)
+}
+
+func c01xExpiryChan(ch ssa.Value, funcs []*ssa.Function, depth int) int {
+	if depth > 3 {
+		return 0
+	}
+	switch x := c01ResolveCaptured(ch).(type) {
+	case *ssa.Call:
+		if an.CalleeName(&x.Call) == "iface:core.Deadliner.C" {
+			return 1
+		}
+		if callee := x.Call.StaticCallee(); callee != nil && len(callee.Blocks) > 0 {
+			return 0 // an in-package helper that returns a channel: not followed
+		}
+		return -1 // the channel of another component (context, timer, ...)
+	case *ssa.Parameter:
+		owner := x.Parent()
+		pi := -1
+		for i, q := range owner.Params {
+			if q == x {
+				pi = i
+			}
+		}
+		sites := c01xCallSites(funcs, owner)
+		if pi < 0 || len(sites) == 0 || (owner.Object() != nil && owner.Object().Exported()) {
+			return 0
+		}
+		res := 1
+		for _, ci := range sites {
+			if pi >= len(ci.Common().Args) {
+				return 0
+			}
+			if r := c01xExpiryChan(ci.Common().Args[pi], funcs, depth+1); r < res {
+				res = r
+			}
+		}
+		return res
+	}
+	return 0
 }
